@@ -558,6 +558,7 @@ class ExcelCompiler:
                     else:
                         # trim this cell, now we will need only its value
                         needed_cells.add(child_address)
+                        self._evaluate(child_address)
                         child_cell.formula = None
                         self.log.debug(f'Trimming {child_address}')
 
